@@ -3,6 +3,7 @@ import SfntV.Model.Caret
 import SfntV.Model.Os2
 import SfntV.Model.MetricsWriter
 import SfntV.Model.MetricsQueries
+import SfntV.Spec.MetricsQueries
 import SfntV.Spec.Metrics
 
 namespace SfntV.Drive.Metrics
@@ -303,6 +304,18 @@ def handle (op : String) (fs : List (String × String)) : String :=
       "gb=" ++ ";".intercalate (boxes.map showRect) ++
       "|gp=" ++ ";".intercalate (pts.map fun p => showRectQ (glyphBBoxPDF fm p)) ++
       "|fb=" ++ showRect (fontBBoxModel boxes) ++ "|fp=" ++ showRectQ (fontBBoxPDF fm pts)
+    | _, _ => "bad-case"
+  else if op == "metrics.dextent" then
+    -- D: GlyphBBox of every glyph = the smallest integer box enclosing all outline points
+    match (getField fs "g").bind parseGlyphsQ with
+    | some gs => ";".intercalate (gs.map fun g =>
+        showRect (match g with | none => ⟨0, 0, 0, 0⟩ | some q => Spec.enclosingBox (cornersQ q)))
+    | none => "bad-case"
+  else if op == "metrics.dbboxpdf" then
+    -- D: GlyphBBoxPDF of every glyph = bounding box of the images of all its corner / path points
+    match (getField fs "fm").bind parseMat, (getField fs "g").bind parseGlyphsQ with
+    | some fm, some gs => ";".intercalate (gs.map fun g =>
+        showRectQ (match g with | none => ⟨0, 0, 0, 0⟩ | some q => Spec.imageBox (Spec.pdfMatrix fm) (cornersQ q)))
     | _, _ => "bad-case"
   else if op == "metrics.wcffq" then
     match (getField fs "w").bind parseRats with
